@@ -36,7 +36,12 @@ func lookupNode[T any](urlTree *URLTree[T], url string) lookupNodeResult[T] {
 	var foundWildcardParams map[string]string
 	urlPath := ""
 	for _, urlPart := range splitURL {
-		if currentNode.WildcardChild != nil {
+		// A wildcard stands for further parts of its own kind: one written as a
+		// path segment ("host.com/*") does not cover a further host label
+		// ("host.com.other.org/x"), one written as a host label ("host.*") does
+		// not cover a path below the bare host ("host/x").
+		if currentNode.WildcardChild != nil &&
+			currentNode.WildcardChild.IsPartOfHost == urlPart.IsPartOfHost {
 			foundWildcardNode = currentNode.WildcardChild
 			foundWildcardPath = wildcardURLPath(urlPath, foundWildcardNode)
 			foundWildcardParams = copyParams(params)
